@@ -41,12 +41,15 @@ def mk_env(rng):
     env = {"mode": rng.choice(["run", "ce"]), "streams": rng.choice(["pipes", "one"]), "seed": rng.hexbytes(16), "seed2": rng.hexbytes(16),
            "gc": "%d:%d" % (rng.below(1 << 30), ppm) if ppm else None, "rules": stream_rules(rng) if rng.chance(2, 3) else []}
     # where the project lives: the path ends up in every frame label (file#function)
-    env["subdir"] = rng.weighted([(None, 5), ("job#42", 2), ("sp ace", 1), ("é#x", 1), ("<drafts>", 1)])
+    env["subdir"] = rng.weighted([(None, 5), ("job#42", 2), ("sp ace", 1), ("é#x", 1), ("<drafts>", 1), ("cache.mmm", 1)])
     # command-line options that must not change the verdict (`run` only)
     env["flags"] = rng.weighted([([], 12), (["--profile"], 2), (["--no-pb"], 2), (["-X", "8388608"], 2), (["--verbose"], 1)])
     if "--verbose" in env["flags"]:
         env["streams"] = "pipes"      # log records go to stdout; they are filtered out of it, which needs the streams apart
-    env["vars"] = rng.weighted([({}, 6), ({"RUST_BACKTRACE": "1"}, 1), ({"RUST_BACKTRACE": "full"}, 1)])
+    env["vars"] = rng.weighted([({}, 6), ({"RUST_BACKTRACE": "1"}, 1), ({"RUST_BACKTRACE": "full"}, 1), ({"CLICOLOR_FORCE": "1"}, 1), ({"SIMWORLD_CLOCK": "freeze"}, 1)])
+    # the command is started in a directory that has been removed since; the entry file is named absolutely
+    if rng.chance(1, 10):
+        env["start"] = "gone"
     # the artefact of an imported module cannot be written (disk full, I/O error): the command may fail, it may not panic
     if rng.chance(1, 8):
         env["hard"] = {"id": "h", "call": "write", "pat": "*.mmm", "nth": str(rng.range(1, 3)), "act": "errno:" + rng.choice(["ENOSPC", "EIO"])}
@@ -154,24 +157,28 @@ def run_case(case):
     pre = (sub + "/") if sub else ""
     if sub:
         files = {pre + k: v for k, v in files.items()}
-        stack = [[m, pre + f, n] for m, f, n in stack]
     world = core.fresh_world(files)
+    gone = env.get("start") == "gone"
+    lpre = pre
+    if gone:
+        pre = world + "/" + pre      # everything is named absolutely, the labels and positions carry that spelling
+    stack = [[m, pre + f, n] for m, f, n in stack] if (sub or gone) else stack
     if env.get("dirty"):
         import pipeline
-        pipeline.place_dirty(world, env, pipeline.module_artefacts(files, pre + "main.ms"))
+        pipeline.place_dirty(world, env, pipeline.module_artefacts(files, lpre + "main.ms"))
     procs = []
     if env["mode"] == "run":
         p = core.run_cmd(world, ["run", pre + "main.ms"] + ([] if verbose else ["-q"]) + list(env.get("flags") or []), plan=plan, gc=env["gc"],
-                         streams=env["streams"], extra_env=xenv)
+                         streams=env["streams"], extra_env=xenv, gone_cwd=gone)
         procs.append(p)
     else:
-        c = core.run_cmd(world, ["compile", pre + "main.ms", "--verbose" if verbose else "--quick"], plan={"seed": env["seed"], "rules": []}, extra_env=xenv)
+        c = core.run_cmd(world, ["compile", pre + "main.ms", "--verbose" if verbose else "--quick"], plan={"seed": env["seed"], "rules": []}, extra_env=xenv, gone_cwd=gone)
         procs.append(c)
         if c["rc"] != 0:
             p = c
         else:
             p = core.run_cmd(world, ["execute", pre + "main.mmm"], plan={"seed": env["seed2"], "rules": env["rules"]}, gc=env["gc"], streams=env["streams"],
-                             extra_env=xenv)
+                             extra_env=xenv, gone_cwd=gone)
             procs.append(p)
     st = core.stats_of(procs, [env["rules"]] * len(procs))
     spec = case["gen"]["spec"]
@@ -196,7 +203,7 @@ def run_case(case):
         out = modelcheck.program_output(p, env)
         pr["verbose_logging_on"] = 1
     if xenv:
-        pr["environment_variable_RUST_BACKTRACE"] = 1
+        pr["environment_variable_" + sorted(xenv)[0]] = 1
     if "--profile" in (env.get("flags") or []) and env["mode"] == "run":
         # the profile report is appended to stdout after the program ended; it is not program output
         stripped = core.strip_profile(out)
@@ -204,6 +211,11 @@ def run_case(case):
             out = stripped
             pr["profile_report_stripped"] = 1
     err = core.text(p["err"]) if env["streams"] == "pipes" else out
+    if "CLICOLOR_FORCE" in xenv:
+        err = re.sub(r"\x1b\[[0-9;]*m", "", err)      # the report may be coloured; what it says is what is judged
+        pr["colours_forced"] = 1
+    if gone:
+        pr["started_in_a_removed_directory"] = 1
 
     def fail(cls, msg):
         return {"ok": False, "class": cls, "msg": "%s [failure=%s links=%s env=%s/%s]" % (msg, spec["failure"], spec["links"], env["mode"], env["streams"]),
@@ -281,7 +293,7 @@ def shrink(case):
         c = copy.deepcopy(case)
         c["env"]["streams"] = "pipes"
         yield c
-    for key in ("subdir", "dirty", "flags", "vars", "hard"):
+    for key in ("subdir", "dirty", "flags", "vars", "hard", "start"):
         if env.get(key):
             c = copy.deepcopy(case)
             c["env"][key] = None
